@@ -19,9 +19,9 @@ func init() {
 		Rule: "cases: a NetworkPolicy-only base world and one single-step edit of a kind drawn by index (add rule in a governed direction; add policy on already-governed pods; add policy on ungoverned pods; five re-spellings: matchLabels<->single-value In, range<->two adjacent ranges, CIDR<->its two halves, policy<->rules split over two policies with the same selector, explicit<->defaulted policyTypes); " +
 			"both worlds are analysed by the real library and the two reports compared point-wise (all workload pairs, all address atoms of both reports, 3x65535 bitsets) for the inclusion / equality / locality the statement demands - no semantic model of the policies is involved, only the selector matcher deciding which pods the new policy selects; " +
 			"non-trivial = the base report has a partial or missing connection for some pair (policies bite) ; effective = the edit could be applied",
-		Assumptions: []string{"which workloads a new policy selects, and whether they were governed before, is decided by our own selector matcher and the policyTypes defaulting rule", "no named port can reach an address in these worlds (the documented fatal-error deviation is excluded by construction)"},
-		NumCases:    func(tier string, _ int64) int { return tierN(tier, 1600, 40000) },
-		Run:         runC14,
+		Assumptions:       []string{"which workloads a new policy selects, and whether they were governed before, is decided by our own selector matcher and the policyTypes defaulting rule", "no named port can reach an address in these worlds (the documented fatal-error deviation is excluded by construction)"},
+		NumCases:          func(tier string, _ int64) int { return tierN(tier, 1600, 40000) },
+		Run:               runC14,
 		MinNonTrivial:     300,
 		MinEffectiveShare: 0.6,
 		RequiredEvents: map[string]int64{"points_compared": 50000, "edit_addRule": 50, "edit_addPolicyGoverned": 40, "edit_addPolicyUngoverned": 40,
